@@ -4,6 +4,7 @@ Fault enumeration over stored content: sequences of 1..5 junk lines are injected
 readable base document at sites inside ~V, ~W, ~P and custom sections (never ~C, ~O, ~A); the damaged file is
 delivered through the simulated channels and read with and without the flag."""
 import copy
+import re
 import os
 import string
 
@@ -155,6 +156,11 @@ class C19(Prop):
             lines = (corpus_text(base["file"]) or "").split("\n")
         else:
             doc = docmodel.std_doc(g, custom=g.choice([0, 1, 2]), wrap=g.random() < 0.15)
+            if g.random() < 0.2:
+                # header sections in another order (~Version not first); the data section stays last
+                head = doc["sections"][:-1]
+                g.shuffle(head)
+                doc["sections"][:-1] = head
             lines = docmodel.render_doc(doc)
             base = {"kind": "lines", "lines": lines}
         ss = sites(lines) or [0]
@@ -177,6 +183,10 @@ class C19(Prop):
             else:
                 txt = "junk"
             junk.append([st.fault.choice(ss), txt])
+        if g.random() < 0.3:
+            # blank lines between the genuine lines: they carry nothing, and must not shift what a message points at
+            for _ in range(g.choice([1, 2, 4])):
+                junk.append([st.fault.choice(ss), g.choice(["", "", "   ", "\t"])])
         return {"base": base, "junk": junk, "channel": draw_read_channel(g, ascii_only=True, allow_cr=False),
                 "policy": Policy.draw(st.io).to_json(),
                 "rkw": g.choice([{}, {}, {"mnemonic_case": "lower"}, {"mnemonic_case": "preserve"}, {"engine": "normal"}, {"ignore_data": True},
@@ -254,6 +264,17 @@ class C19(Prop):
                     msg = str(e)
                     if not any(t.strip() and t.strip() in msg for _, t in junk):
                         res.violate("C19.error-message", "LASHeaderError does not name the malformed line: %r | junk=%r" % (msg[:200], [t[:60] for _, t in junk]))
+                    else:
+                        # the message also points at a line number: it must be the (1-based) number of a line with that text
+                        mnum = re.match(r"^Line (\d+) ", msg)
+                        named = [t.strip() for _, t in junk if t.strip() and '"%s"' % t.strip() in msg]
+                        if mnum and named and "\r" not in bad_text:
+                            blines = bad_text.split("\n")
+                            ok_nos = [i + 1 for i, ln in enumerate(blines) if ln.strip() in named]
+                            res.count("strict-read:line-number-checked")
+                            if int(mnum.group(1)) not in ok_nos:
+                                res.violate("C19.error-message", "LASHeaderError points at line %s but the malformed line %r is line %r | junk=%r" % (
+                                    mnum.group(1), named[0][:60], ok_nos[:4], [t[:60] for _, t in junk]))
                 except Exception as e:
                     res.violate("C19.wrong-exception", "without the flag a malformed header line caused %s (not LASHeaderError): %s | junk=%r" % (
                         type(e).__name__, str(e).strip().splitlines()[-1][:200] if str(e).strip() else "", [t[:60] for _, t in junk]))
